@@ -23,6 +23,8 @@ import (
 //	process_calls      ProcessCalls: statement kind -> handler / skip / recurse / recurse into every choice / panic
 //	add_call_shape     AddCall: key from dep.String(), skip if present, insert, append
 //	dep_key            deps.go String(): the four fields of the key, in order
+//	views_loop         GenerateIntegrations: per view own exclude / passthrough attributes, a fresh union handed to
+//	                   a fresh builder, diagram parameters from that builder, shared exclude set otherwise untouched
 //
 // A statement or condition that is not recognised becomes ...Unknown and the reflexivity lemmas of
 // Ints/Shape.v stop checking. Expressions are compared in the canonical spelling of go/types.ExprString after
@@ -634,6 +636,81 @@ func intsSeedLoop(rs *ast.RangeStmt, b, apps, excl string) []string {
 	return out
 }
 
+// intsViewsLoop reads GenerateIntegrations (integrationdiagram.go): inside the loop over the project's endpoints,
+// every view must take its own `exclude` / `passthrough` attributes, hand MakeBuilderfromStmt a FRESH union
+// shared.Union(own) (never the shared set itself), take the diagram's parameters from the builder it has just
+// made, and must not touch the shared set in any other statement.
+func intsViewsLoop(fd *ast.FuncDecl) []string {
+	if fd == nil || fd.Body == nil {
+		return []string{"VUnknown"}
+	}
+	shared := ""
+	var loop *ast.RangeStmt
+	for _, st := range fd.Body.List {
+		switch s := st.(type) {
+		case *ast.AssignStmt:
+			if len(s.Lhs) == 1 && len(s.Rhs) == 1 && s.Tok == token.DEFINE {
+				if c, ok := s.Rhs[0].(*ast.CallExpr); ok && intsX(c.Fun) == "syslutil.MakeStrSet" {
+					shared = intsX(s.Lhs[0])
+				}
+			}
+		case *ast.RangeStmt:
+			if strings.Contains(intsX(s.X), ".GetEndpoints()") {
+				loop = s
+			}
+		}
+	}
+	if shared == "" || loop == nil {
+		return []string{"VUnknown"}
+	}
+	var out []string
+	endpt, own, pass, bld, param := "", "", "", "", ""
+	for _, st := range loop.Body.List {
+		known := false
+		if as, ok := st.(*ast.AssignStmt); ok && len(as.Lhs) == 1 && len(as.Rhs) == 1 {
+			lhs, rhs := intsX(as.Lhs[0]), intsX(as.Rhs[0])
+			switch {
+			case as.Tok == token.DEFINE && strings.HasSuffix(rhs, ".GetEndpoints()["+intsX(loop.Value)+"]") && loop.Value != nil:
+				endpt, known = lhs, true
+			case as.Tok == token.DEFINE && endpt != "" && rhs == "syslutil.MakeStrSetFromAttr(\"exclude\", "+endpt+".GetAttrs())":
+				own, known = lhs, true
+				out = append(out, "VOwnExcludes")
+			case as.Tok == token.DEFINE && endpt != "" && rhs == "syslutil.MakeStrSetFromAttr(\"passthrough\", "+endpt+".GetAttrs())":
+				pass, known = lhs, true
+				out = append(out, "VOwnPassthrough")
+			case as.Tok == token.DEFINE && strings.HasPrefix(rhs, "MakeBuilderfromStmt("):
+				bld, known = lhs, true
+				if own != "" && pass != "" && strings.HasSuffix(rhs, ", "+endpt+".GetStmt(), "+shared+".Union("+own+"), "+pass+")") {
+					out = append(out, "VBuildFreshUnion")
+				} else {
+					out = append(out, "VUnknown")
+				}
+			case as.Tok == token.DEFINE && bld != "" && strings.HasPrefix(rhs, "&IntsParam{"):
+				param, known = lhs, true
+				ok := false
+				if u, isU := as.Rhs[0].(*ast.UnaryExpr); isU {
+					if cl, isC := u.X.(*ast.CompositeLit); isC && len(cl.Elts) == 5 &&
+						intsX(cl.Elts[0]) == bld+".FinalApps" && intsX(cl.Elts[1]) == bld+".SeedAppsMap" && intsX(cl.Elts[2]) == bld+".DepsOut" && intsX(cl.Elts[4]) == endpt {
+						ok = true
+					}
+				}
+				if ok {
+					out = append(out, "VParamsFromThisBuilder")
+				} else {
+					out = append(out, "VUnknown")
+				}
+			case as.Tok == token.ASSIGN && param != "" && strings.HasPrefix(rhs, "GenerateView(") && strings.Contains(rhs, ", "+param+", "):
+				known = true
+				out = append(out, "VRender")
+			}
+		}
+		if !known && mentions(st, shared) {
+			out = append(out, "VSharedTouched")
+		}
+	}
+	return out
+}
+
 // sortedSlice must collect the keys and sort them
 func intsSortedSliceSorts(fd *ast.FuncDecl) bool {
 	if fd == nil || fd.Body == nil {
@@ -665,6 +742,13 @@ func intsShape(repo string) (string, error) {
 	for _, fd := range funcDecls(df.file) {
 		byName[recvName(fd)+"."+fd.Name.Name] = fd
 	}
+	vf, err := parseGo(repo, "pkg/integrationdiagram/integrationdiagram.go")
+	if err != nil {
+		return "", err
+	}
+	for _, fd := range funcDecls(vf.file) {
+		byName[recvName(fd)+"."+fd.Name.Name] = fd
+	}
 	seed, passes := intsMake(byName[".MakeBuilderfromStmt"], intsSortedSliceSorts(byName[".sortedSlice"]))
 	list := func(xs []string) string { return "[" + strings.Join(xs, "; ") + "]" }
 	var sb strings.Builder
@@ -679,5 +763,6 @@ func intsShape(repo string) (string, error) {
 	fmt.Fprintf(&sb, "Definition process_calls : list (string * arm) := %s.\n", list(intsProcessCalls(byName[".ProcessCalls"])))
 	fmt.Fprintf(&sb, "Definition add_call_shape : list astep := %s.\n", list(intsAddCall(byName["IntsBuilder.AddCall"])))
 	fmt.Fprintf(&sb, "Definition dep_key : list keyfield := %s.\n", list(intsDepKey(byName["AppDependency.String"])))
+	fmt.Fprintf(&sb, "Definition views_loop : list vstep := %s.\n", list(intsViewsLoop(byName[".GenerateIntegrations"])))
 	return sb.String(), nil
 }
